@@ -183,6 +183,8 @@ thread_local! {
 }
 
 /// Installs a panic hook which records message + location; silent inside `catch`.
+static LAST_PANIC_ANY_THREAD: std::sync::Mutex<Option<String>> = std::sync::Mutex::new(None);
+
 pub fn install_panic_hook() {
     let default = std::panic::take_hook();
     std::panic::set_hook(Box::new(move |info| {
@@ -195,6 +197,10 @@ pub fn install_panic_hook() {
         };
         let loc = info.location().map(|l| format!("{}:{}", l.file(), l.line())).unwrap_or_default();
         LAST_PANIC.with(|p| *p.borrow_mut() = Some(format!("{msg} @ {loc}")));
+        // a panic on a pool thread is re-raised on the caller's thread without passing the hook again
+        if let Ok(mut any) = LAST_PANIC_ANY_THREAD.lock() {
+            *any = Some(format!("{msg} @ {loc}"));
+        }
         if !QUIET.with(|q| *q.borrow()) {
             default(info);
         }
@@ -207,7 +213,12 @@ pub fn catch<R>(f: impl FnOnce() -> R) -> Result<R, String> {
     LAST_PANIC.with(|p| *p.borrow_mut() = None);
     let result = catch_unwind(AssertUnwindSafe(f));
     QUIET.with(|q| *q.borrow_mut() = prev);
-    result.map_err(|_| LAST_PANIC.with(|p| p.borrow_mut().take()).unwrap_or_else(|| "<unknown panic>".to_string()))
+    result.map_err(|_| {
+        LAST_PANIC
+            .with(|p| p.borrow_mut().take())
+            .or_else(|| LAST_PANIC_ANY_THREAD.lock().ok().and_then(|mut any| any.take()))
+            .unwrap_or_else(|| "<unknown panic>".to_string())
+    })
 }
 
 /// Extracts "file:line" of a captured panic string.
